@@ -119,7 +119,7 @@ PROPERTIES = {
         "steps": [net("C04"), tx("txmc_advmgr", "verif_advmgr_c04", expect=2)],
         "technique": "explicit-state search of the real stream manager under an adversarial frame catalogue + e2e credit monitor",
         "level_text": "txmc: the real AbstractStreamManager<StreamImpl> (server and client role) is driven through every sequence (depth 8 quick, deeper thorough) of honest operations and adversarial frames - data beyond the stream / connection limit, stream ids at and beyond the limit for both peer-initiated types, FIN then FIN at +-1, data beyond a known final size, RESET_STREAM with a final size different from FIN / below received / above the limit, STREAM / RESET_STREAM / STREAM_DATA_BLOCKED on send-only streams, MAX_STREAM_DATA / STOP_SENDING on receive-only streams (live and already closed), frames for unopened local streams, MAX_STREAMS > 2^60 - each must yield a transport error from the set the RFC sentence allows (prescribed code or PROTOCOL_VIOLATION per RFC 9000 11), no offending byte may reach the application, honest operations never error. " + NET_NOTE + "Oracle CREDIT on every execution: MAX_STREAM_DATA <= bytes the application consumed on the stream + configured stream window, MAX_DATA <= total consumed + connection window, MAX_STREAMS <= peer streams opened + configured limit.",
-        "level_note": "Two genuine defects (frames for a non-existent stream half accepted) were repaired by a fix: commit; one remains a listed known finding (RESET_STREAM with a final size below data already received is accepted; RFC 9000 4.5 SHOULD, an in-tree test sends exactly such a frame). Frame-type-per-packet-space and malformed NEW_CONNECTION_ID clauses are exercised by C05/C13 engines, not here; the e2e adversarial-peer family (netmc ADV) is not part of this revision.",
+        "level_note": "Two genuine defects (frames for a non-existent stream half accepted) were repaired by a fix: commit; one remains a listed known finding (RESET_STREAM with a final size below data already received is accepted; RFC 9000 4.5 SHOULD, an in-tree test sends exactly such a frame). The netmc adv family (null TLS, so that every space is writable) turns an otherwise honest peer's n-th packet of a space into one offending frame: every frame type the RFC 9000 12.4 table forbids in Initial/Handshake packets, HANDSHAKE_DONE / NEW_TOKEN to a server, ACK of an unsent packet, MAX_STREAMS > 2^60, stream offset beyond 2^62-1, data beyond the connection limit on a fresh stream, stream id beyond the limit, frames for unopened local streams, malformed / excessive NEW_CONNECTION_ID, RETIRE_CONNECTION_ID of an unissued id, CRYPTO beyond the buffer, unknown frame type - both roles as victim, several injection points; the victim must close with a transport error from the allowed set and deliver no offending byte.",
         "design_ref": "DESIGN.md §3 C04",
         "assumptions": ["small-scope hypothesis", "catalogue of violations in engines/txmc/stream_advmgr.rs"],
     },
